@@ -20,9 +20,41 @@ FRAME_W = {'none': 10, 'switch': 5, 'rswitch': 1.5, 'quit': 1, 'quitto': 0.5, 'r
 REACT_W = {'none': 2, 'switch': 4, 'rswitch': 1, 'quit': 1, 'quitto': 0.5, 'rquit': 1.5, 'rother': 1}
 
 
+# clock readings as a dimension of their own: how the time function represents a reading, where the
+# readings lie (small, around 2**53 where doubles stop being exact for integers, nanoseconds since
+# the epoch, negative) and how they move (C14 says non-decreasing; decreasing steps are fed as well,
+# the difference is what the code must hand on)
+BASES = [0, 0, 7, -40, 2 ** 53 - 3, 2 ** 53 + 1, 2 ** 63 + 5, 1_700_000_000_123_456_789,
+         -(2 ** 53) - 11]
+STEPS = [0, 1, 1, 2, 3, 5, 8, 13, 255, 257, 16_666_667, 1_000_000_007, 2 ** 31 + 1]
+
+
+def gen_clock(rng):
+    """-> (kind, base, step function)"""
+    kind = rng.choices(['f8', 'int', 'frac'], [5, 4, 2])[0]
+    if kind == 'f8':
+        base = rng.randrange(-20, 50)
+        steps = [0, 1, 1, 2, 3, 5, 8, 13]
+    elif kind == 'int':
+        base = rng.choice(BASES)
+        steps = STEPS if abs(base) > 1000 or rng.random() < 0.5 else STEPS[:8]
+    else:
+        base = rng.choice([0, 1, -9, 22, 10 ** 18 + 3])
+        steps = STEPS[:10]
+    backwards = rng.random() < 0.15
+
+    def step():
+        d = rng.choice(steps)
+        return -d if backwards and rng.random() < 0.4 else d
+    return kind, base, step
+
+
 def gen_scenario(rng, frame_w=FRAME_W, react_p=0.35, max_handles=3, max_starts=3, max_frames=8):
     nh = rng.randint(1, max_handles)
     lines, procs = [], []
+    kind, reading, step = gen_clock(rng)
+    if kind != 'f8' or rng.random() < 0.5:
+        lines.append(f'clock {kind}')
     for h in range(nh):
         ks = [rng.choice(KINDS) for _ in range(rng.randint(1, 3))]
         procs.append(ks)
@@ -37,12 +69,11 @@ def gen_scenario(rng, frame_w=FRAME_W, react_p=0.35, max_handles=3, max_starts=3
     if rng.random() < 0.95:
         fl = rng.choice([(0, 0), (0, 0), (0, 0), (1, 0), (0, 1), (1, 1)])
         lines.append(f'op switch {rng.randrange(nh)} {fl[0]} {fl[1]}')
-    reading = rng.randrange(0, 50)
     for _ in range(rng.randint(1, max_starts)):
         lines.append('op start')
         nf = rng.randint(1, max_frames)
         for f in range(nf):
-            reading += rng.choice([0, 1, 1, 2, 3, 5, 8, 13])
+            reading += step()
             acts = [gen_act(rng, nh, frame_w) for _ in range(3)]
             if f == nf - 1 and rng.random() < 0.6:
                 acts[rng.randrange(3)] = rng.choice(['quit', 'rquit', 'rquit'])
